@@ -23,7 +23,7 @@ RULE = ('seeded frames: 0-6 locals holding generated object graphs (scalars, nes
 ASSUMPTIONS = ['values stay inside the default collection limits (limits are C05), friendly types only (hostile '
                'types are C06)', 'expressions are side-effect free, so evaluating them twice is sound',
                'order of variables within a frame is not part of the property']
-REQUIRE = {'paused_frame_closure': 20, 'paused_frame_generator': 20, 'paused_frame_coroutine': 20, 'paused_frame_nested_class': 20, 'snapshots_compared': 150, 'entries_compared': 1500, 'watches_compared': 50, 'frames_compared': 300,
+REQUIRE = {'paused_frame_module': 15, 'paused_frame_closure': 20, 'paused_frame_generator': 20, 'paused_frame_coroutine': 20, 'paused_frame_nested_class': 20, 'snapshots_compared': 150, 'entries_compared': 1500, 'watches_compared': 50, 'frames_compared': 300,
            'time_budget_cases': 10}
 
 
@@ -90,7 +90,7 @@ def case_frame(seed, out, spec, wd):
     if not method and 'self' not in names:
         # the paused frame may also be a closure (free variables are locals too), a generator, a coroutine or a
         # function of a class defined inside a function
-        kind = r.pick([None, None, 'closure', 'generator', 'coroutine', 'nested_class'])
+        kind = r.pick([None, None, 'closure', 'generator', 'coroutine', 'nested_class', 'module'])
     if kind == 'closure' and r.chance(0.7):
         # the free variables of the paused function are visible to expressions as well
         wl += ['captured_note', 'shared_cell[1] is captured_note'][:r.randrange(1, 3)]
